@@ -170,6 +170,10 @@ fn gen_history(tape: &[u8], allow_failing: bool, stats: &mut GenStats) -> Option
         if t.chance(20) {
             opts.deprecation = Some((*t.pick(&["allow", "warn", "deny"])).to_string());
         }
+        if t.chance(30) {
+            // an option that differs between calls must not stick to the process
+            opts.serde_path = Some((*t.pick(&["serde", "::serde", "crate::reexports::serde"])).to_string());
+        }
         calls.push((sp, q, opts, failing));
     }
     let threads = match t.weighted(&[40, 15, 15, 15, 15]) {
@@ -206,6 +210,64 @@ fn gen_history(tape: &[u8], allow_failing: bool, stats: &mut GenStats) -> Option
         }
     }
     Some(HistoryCase { tape: tape.to_vec(), files: Files { files }, calls, threads, relative_from })
+}
+
+/// A family aimed at state that validation or generation might keep between calls (per thread or
+/// per process): documents rejected at different stages - after the validator has walked through
+/// fragment spreads - alternate with valid documents that reach `__typename` only through spreads,
+/// with 0-3 padding fragments shifting the per-document fragment indices.
+fn gen_state_history(tape: &[u8]) -> HistoryCase {
+    let mut t = Tape::new(tape);
+    let schema = "type Query { node: Node  other: Node  uni: Uni }\ninterface Node { id: ID  name: String  next: Node }\ntype A implements Node { id: ID  name: String  next: Node  extra: Int }\ntype B implements Node { id: ID  name: String  next: Node }\nunion Uni = A | B\n";
+    let pad = |t: &mut Tape, tag: &str| -> (String, Vec<String>) {
+        let n = t.below(4);
+        let names: Vec<String> = (0..n).map(|i| format!("Pad{}{}", tag, i)).collect();
+        let text: String = names.iter().map(|n| format!("fragment {} on A {{ extra }}\n", n)).collect();
+        (text, names)
+    };
+    let mut files: Vec<(String, Option<String>)> = vec![("s/schema.graphql".into(), Some(schema.to_string()))];
+    let mut docs: Vec<(String, bool)> = Vec::new();
+    for k in 0..3 {
+        // rejected: no `__typename` anywhere, found only after the walk went through spreads
+        let (p, _) = pad(&mut t, "Bad");
+        let field = *t.pick(&["node", "other", "uni"]);
+        let body = match t.below(3) {
+            0 => format!("query Bad{k} {{ {f} {{ ...Outer{k} }} }}\nfragment Outer{k} on {ty} {{ ...Inner{k} }}\nfragment Inner{k} on {ty} {{ ... on A {{ extra }} }}\n", k = k, f = field, ty = if field == "uni" { "Uni" } else { "Node" }),
+            1 => format!("query Bad{k} {{ node {{ id ...Outer{k} }} }}\nfragment Outer{k} on Node {{ id ...Inner{k} }}\nfragment Inner{k} on Node {{ name }}\n", k = k),
+            _ => format!("query Bad{k} {{ node {{ id next {{ ...Outer{k} }} }} }}\nfragment Outer{k} on Node {{ name ...Inner{k} }}\nfragment Inner{k} on Node {{ id }}\n", k = k),
+        };
+        let text = if t.chance(50) { format!("{}{}", p, body) } else { format!("{}{}", body, p) };
+        files.push((format!("q/bad{}.graphql", k), Some(text)));
+        docs.push((format!("q/bad{}.graphql", k), true));
+    }
+    for k in 0..3 {
+        // valid: `__typename` is supplied by a fragment reached through one or two spreads
+        let (p, _) = pad(&mut t, "Good");
+        let body = match t.below(3) {
+            0 => format!("query Good{k} {{ node {{ ...Summary{k} }} }}\nfragment Summary{k} on Node {{ ...Identity{k} }}\nfragment Identity{k} on Node {{ __typename id }}\n", k = k),
+            1 => format!("query Good{k} {{ node {{ id ...Identity{k} }} other {{ ...Identity{k} }} }}\nfragment Identity{k} on Node {{ __typename name }}\n", k = k),
+            _ => format!("query Good{k} {{ uni {{ ...U{k} }} node {{ ...Summary{k} next {{ ...Summary{k} }} }} }}\nfragment U{k} on Uni {{ __typename ... on A {{ extra }} }}\nfragment Summary{k} on Node {{ ...Identity{k} name }}\nfragment Identity{k} on Node {{ __typename id }}\n", k = k),
+        };
+        let text = if t.chance(50) { format!("{}{}", p, body) } else { format!("{}{}", body, p) };
+        files.push((format!("q/good{}.graphql", k), Some(text)));
+        docs.push((format!("q/good{}.graphql", k), false));
+    }
+    let n_calls = t.range(6, 24);
+    let mut calls = Vec::new();
+    for _ in 0..n_calls {
+        let (qp, failing) = t.pick(&docs).clone();
+        let content = files.iter().find(|(p, _)| p == &qp).and_then(|(_, c)| c.clone()).unwrap();
+        let q = if t.chance(50) { QuerySrc::Path(qp) } else { QuerySrc::Text(content) };
+        let mut opts = Opts::default();
+        opts.other_variant = t.chance(30);
+        calls.push(("s/schema.graphql".to_string(), q, opts, failing));
+    }
+    let threads = match t.weighted(&[60, 20, 20]) {
+        0 => 1,
+        1 => 2,
+        _ => 4,
+    };
+    HistoryCase { tape: tape.to_vec(), files: Files { files }, calls, threads, relative_from: None }
 }
 
 fn materialise(dir: &Path, files: &Files) {
@@ -327,7 +389,7 @@ fn from_replay(v: &Value) -> Option<HistoryCase> {
 }
 
 pub fn run(report: &mut Report, replay: Option<&Value>) {
-    report.rule = "a directory tree of schema / query files (same content under two paths, different content under the same base name in two directories; probe family: missing path, unparsable SDL / JSON / query, unsupported extension, documents that bind but fail a later validation) and a history of 5-40 calls over them (generate_module_token_stream with a query path and ..._from_string, random options), executed in one fresh process sequentially or partitioned over 2/4/8/16 threads released by a barrier. Oracle: every call's outcome (Ok(tokens) / Err(text) / Panic(message)) equals the outcome of the same call made alone in a fresh process (memoised per distinct call). Non-trivial: the history has a failing call, or >= 4 threads, or >= 10 calls; distinct by (history, call index).".into();
+    report.rule = "a directory tree of schema / query files (same content under two paths, different content under the same base name in two directories; probe family: missing path, unparsable SDL / JSON / query, unsupported extension, documents that bind but fail a later validation) (plus a fixed small schema with documents rejected after the validator walked through fragment spreads alternating with valid documents that reach `__typename` only through spreads) and a history of 5-40 calls over them (generate_module_token_stream with a query path and ..._from_string, random options incl. the serde path), executed in one fresh process sequentially or partitioned over 2/4/8/16 threads released by a barrier. Oracle: every call's outcome (Ok(tokens) / Err(text) / Panic(message)) equals the outcome of the same call made alone in a fresh process (memoised per distinct call). Non-trivial: the history has a failing call, or >= 4 threads, or >= 10 calls; distinct by (history, call index).".into();
     report.assumptions = vec![
         "thread schedules are sampled by stress (barrier release), not enumerated; with the one-lock design outcomes are functions of file contents, so a data race that leaves outputs unchanged would not be seen".into(),
         "files are not modified between calls (outside the quantifier)".into(),
@@ -371,6 +433,16 @@ pub fn run(report: &mut Report, replay: Option<&Value>) {
     }
     if poisoned_open {
         report.count_extra("excluded_by_construction_failing_files", n as u64);
+    }
+    // state carried between calls by validation / generation (rejected documents next to valid ones)
+    let tapes = sample_tapes(report.seed, 0xC085, if report.thorough() { 600 } else { 80 }, 512);
+    for (i, tp) in tapes.iter().enumerate() {
+        let hc = gen_state_history(tp);
+        memo.clear();
+        run_case(report, &root, 200_000 + i, &hc, &mut memo);
+        report.programs += 1;
+        report.feature("family:rejected_and_valid_documents_alternating");
+        report.feature(&format!("threads:{}", hc.threads));
     }
     let tapes = sample_tapes(report.seed, 0xC08F, n_probe, 3072);
     for (i, tp) in tapes.iter().enumerate() {
